@@ -228,36 +228,29 @@ func checkField(queryValue, fieldValue interface{}) bool {
 			return true
 		}
 	case []interface{}:
-		elem := v[0]
-		switch e := elem.(type) {
-		case int:
-			for _, val := range v {
-				if checkIntMatch(int64(val.(int)), fieldNumList) {
+		// a list of mixed element types: each element is matched according to its own type
+		for _, val := range v {
+			switch query := val.(type) {
+			case int:
+				if checkIntMatch(int64(query), fieldNumList) {
 					return true
 				}
-			}
-		case float64:
-			for _, val := range v {
-				if checkFloatMatch(val.(float64), fieldFloatList) {
+			case float64:
+				if checkFloatMatch(query, fieldFloatList) {
 					return true
 				}
-			}
-		case string, *regexp.Regexp:
-			for _, val := range v {
-				switch query := val.(type) {
-				case string:
-					if checkStrMatch(query, fieldStrList) {
-						return true
-					}
-				case *regexp.Regexp:
-					if checkRegexMatch(query, fieldStrList) {
-						return true
-					}
+			case string:
+				if checkStrMatch(query, fieldStrList) {
+					return true
 				}
+			case *regexp.Regexp:
+				if checkRegexMatch(query, fieldStrList) {
+					return true
+				}
+			default:
+				var t = reflect.TypeOf(query)
+				dvid.Errorf("neuronjson query value %v has elements of illegal type %v\n", v, t)
 			}
-		default:
-			var t = reflect.TypeOf(e)
-			dvid.Errorf("neuronjson query value %v has elements of illegal type %v\n", v, t)
 		}
 	default:
 		var t = reflect.TypeOf(v)
